@@ -202,9 +202,26 @@ func (it *Interp) intrinsic(name string, fn *ssa.Function, a []Val) Val {
 			}
 		}
 		sort := map[string]string{"UFBool": SBool, "UFU64": bvSort(64), "UFStr": SStr}[name]
-		t := App("uf!"+fname, sort, ts...)
+		// the function symbol is per argument shape (an interface argument can flatten to different shapes)
+		sig := ""
+		for _, x := range ts {
+			switch {
+			case x.sort == SBool:
+				sig += "b"
+			case x.sort == SStr:
+				sig += "s"
+			case x.sort == SInt:
+				sig += "i"
+			default:
+				sig += fmt.Sprintf("v%d", x.w)
+			}
+		}
+		t := App("uf!"+fname+"!"+sig, sort, ts...)
 		if len(ts) == 0 {
 			t = Var("uf!"+fname, sort)
+		}
+		if name == "UFStr" {
+			it.strLenTerm(t)
 		}
 		p.sources = append(p.sources, Source{Kind: "uf:" + name, Tag: fname, Terms: []*Term{t}})
 		if name == "UFStr" {
